@@ -196,7 +196,7 @@ def mutators(bs, acc, d):
         apply_mut(acc, bs, cls, d, 'delitem', f"del s[{i}]", mir(M.delitem(rd, i)))
         for kind, v, vsrc in (('int', 0, '0'), ('int', 1, '1'), ('bits', '1', "'0b1'"), ('bits', '10', "'0b10'"), ('int', 2, '2')):
             apply_mut(acc, bs, cls, d, 'setitem', f"s[{i}] = {vsrc}", mir(M.setitem_int(rd, i, (kind, R(v) if kind == 'bits' else v))))
-    sl = [None, 0, 1, -1, L // 2, L]
+    sl = list(dict.fromkeys([None, 0, 1, -1, L // 2, L, L + 1, L + 3, 2 * L + 1, -L - 1]))    # incl. bounds that overrun the ends by less / more than the length
     for a in sl:
         for b in sl:
             for c in (None, 1, -1, 2, -2, 3):
